@@ -148,6 +148,18 @@ fn run(name: &str, a: &[i128]) -> String {
             let dt = h::iso_date_time_new_unchecked(date3(a), time6(&a[3..]));
             format!("{}", h::iso_date_time_within_limits(&dt) as u8)
         }
+        "epoch_ns_try_from" => match temporal_rs::time::EpochNanoseconds::try_from(a[0]) {
+            Ok(v) => format!("0 {}", v.as_i128()),
+            Err(e) => format!("1 {}", e.kind() as u8),
+        },
+        "instant_from_epoch_ms" => match Instant::from_epoch_milliseconds(a[0] as i64) {
+            Ok(v) => format!("0 {}", v.as_i128()),
+            Err(e) => format!("1 {}", e.kind() as u8),
+        },
+        "unit_max_increment" => match unit(a[0]).to_maximum_rounding_increment() {
+            Some(v) => format!("1 {v}"),
+            None => "0".to_string(),
+        },
         "negate_mode" => format!("{}", vharness::common::mode_idx(mode(a[0]).negate())),
         "unsigned_mode" => {
             use temporal_rs::options::UnsignedRoundingMode as U;
